@@ -260,22 +260,25 @@ func (d *Device) handleABSEvent(ie *input.InputEvent) {
 			value = value*2 - 1.0
 		}
 
+		// a direction is released below 49% of its own travel - that includes every position on the other side - and before
+		// the other direction starts to sound
+		if value < 0.49 {
+			d.AnalogNoteOff(identifier, ie)
+		}
+		if value > -0.49 {
+			d.AnalogNoteOff(identifierNeg, ie)
+		}
 		switch {
 		case value <= -0.5:
 			_, ok := d.analogNoteTracker[identifierNeg]
 			if !ok && analog.Bidirectional { // no note_negative configured: that direction stays silent
 				d.AnalogNoteOn(identifierNeg, analog.NoteNeg, analog.ChannelOffsetNeg, ie)
 			}
-			d.AnalogNoteOff(identifier, ie)
-		case value > -0.49 && value < 0.49:
-			d.AnalogNoteOff(identifier, ie)
-			d.AnalogNoteOff(identifierNeg, ie)
 		case value >= 0.5:
 			_, ok := d.analogNoteTracker[identifier]
 			if !ok {
 				d.AnalogNoteOn(identifier, analog.Note, analog.ChannelOffset, ie)
 			}
-			d.AnalogNoteOff(identifierNeg, ie)
 		}
 	case config.AnalogActionSim:
 		if d.checkDoubleActions() {
